@@ -128,6 +128,20 @@ func resetEffects(p *Program, fn *ssa.Function, sn string, cover map[string]*fie
 					}
 				}
 			}
+		case *ssa.MapUpdate:
+			// every entry of a map field re-assigned by a loop over that very map
+			// (`for k, v := range x.m { x.m[k] = v.truncate() }`)
+			if s, f, base, ok := loadedField(x.Map); ok && s == sn && root(base) == ssa.Value(recv) {
+				if ex, ok := x.Key.(*ssa.Extract); ok && ex.Index == 1 {
+					if nx, ok := ex.Tuple.(*ssa.Next); ok {
+						if rg, ok := nx.Iter.(*ssa.Range); ok {
+							if s2, f2, base2, ok := loadedField(rg.X); ok && s2 == sn && f2 == f && root(base2) == ssa.Value(recv) {
+								set(f, "every entry re-assigned by a loop over the map in "+funcShortName(fn), "truncated", in)
+							}
+						}
+					}
+				}
+			}
 		case ssa.CallInstruction:
 			cc := x.Common()
 			if b, ok := cc.Value.(*ssa.Builtin); ok {
